@@ -812,4 +812,3 @@ var prop = &pbt.Prop[Case]{
 func TestCheck(t *testing.T) { pbt.Run(t, prop) }
 
 func FuzzCheck(f *testing.F) { pbt.Fuzz(f, prop) }
-
